@@ -230,7 +230,7 @@ func (dq *Deque[T]) waitPushAfter(ctx context.Context, it T, afterGetter func() 
 	cond := dq.updates
 	// If the context terminates, wake the waiter.
 	ctx, cancel := context.WithCancel(ctx)
-	go func() { <-ctx.Done(); cond.Broadcast() }()
+	go func() { <-ctx.Done(); dq.mtx.Lock(); defer dq.mtx.Unlock(); cond.Broadcast() }()
 	defer cancel()
 
 	for dq.tracker.cap() <= dq.tracker.len() {
@@ -468,7 +468,7 @@ func (it *element[T]) wait(ctx context.Context, direction dqDirection) error {
 
 	// If the context terminates, wake the waiter.
 	ctx, cancel := context.WithCancel(ctx)
-	go func() { <-ctx.Done(); cond.Broadcast() }()
+	go func() { <-ctx.Done(); it.list.mtx.Lock(); defer it.list.mtx.Unlock(); cond.Broadcast() }()
 	defer cancel()
 
 	next := it.getNextOrPrevious(direction)
